@@ -41,7 +41,7 @@ SHARDS = 16
 REPO_ROOT = os.environ.get("VERIF_REPO") or "/repo"
 PY = sys.executable
 PRELUDE_RATE = 0.2  # share of runs that execute another generated program first, in the same process
-RUN_WALL_S = 120  # per-run watchdog (the slowest legitimate run measured under full machine load: 8 s; evidence reports it)
+RUN_WALL_S = 120  # per-run watchdog in seconds of the run's own CPU time (slowest legitimate run measured: ~20 s of wall time under triple load; evidence reports it)
 
 
 def load_prop(prop: str):
@@ -77,8 +77,13 @@ def signature(v: dict) -> str:
 
 def execute_guarded(mod, program: dict) -> dict:
     """Execute one program; a watchdog hang or harness exception is classified."""
+    # the watchdog counts the run's own CPU time (user + system), so a machine loaded by other batches cannot turn a
+    # slow run into a "hang"; a wall-clock alarm six times as long stays behind it for a run that blocks without burning CPU
+    budget_s = int(getattr(mod, "RUN_WALL_S", RUN_WALL_S))
+    signal.signal(signal.SIGPROF, _alarm)
     signal.signal(signal.SIGALRM, _alarm)
-    signal.alarm(int(getattr(mod, "RUN_WALL_S", RUN_WALL_S)))
+    signal.setitimer(signal.ITIMER_PROF, budget_s)
+    signal.alarm(6 * budget_s)
     try:
         pre = program.get("_prelude")
         if pre is not None:
@@ -104,6 +109,7 @@ def execute_guarded(mod, program: dict) -> dict:
     except Exception:  # harness bug, not a verdict
         res = {"harness_error": traceback.format_exc(), "digest": "error", "steps": 0}
     finally:
+        signal.setitimer(signal.ITIMER_PROF, 0)
         signal.alarm(0)
     return res
 
@@ -363,7 +369,7 @@ def parent(prop: str, tier: str, verif_seed: int) -> int:
     t0 = time.time()
     mod = load_prop(prop)
     n_runs = int(os.environ.get("VERIF_RUNS", mod.TIERS[tier]))
-    tmo = {"quick": 900, "thorough": 7200}[tier]
+    tmo = {"quick": 900, "thorough": 14400}[tier]
     scratch = tempfile.mkdtemp(prefix=f"verif-{prop}-", dir="/dev/shm" if os.path.isdir("/dev/shm") else None)
     harness_problems: list[str] = []
     try:
